@@ -363,3 +363,27 @@ func funcKey(fn *ssa.Function) string {
 	s = strings.ReplaceAll(s, modPath+"/", "")
 	return s
 }
+
+// ExprAt returns the source text of the call/conversion expression whose
+// left parenthesis is at pos (the position go/ssa gives a Convert or Call).
+func (w *World) ExprAt(pos token.Pos) string {
+	if !pos.IsValid() {
+		return "?"
+	}
+	for _, p := range w.All {
+		for _, f := range p.Syntax {
+			if f.Pos() <= pos && pos <= f.End() {
+				out := "?"
+				ast.Inspect(f, func(n ast.Node) bool {
+					if ce, ok := n.(*ast.CallExpr); ok && ce.Lparen == pos {
+						out = types.ExprString(ce)
+						return false
+					}
+					return true
+				})
+				return out
+			}
+		}
+	}
+	return "?"
+}
